@@ -68,6 +68,36 @@ func genOverlay(verifDir, repoDir, pkgDir, genDir string) (src map[string]string
 	if err := emit("zz_vp_runtime.go", subst(rt), false); err != nil {
 		return nil, nil, nil, err
 	}
+	// shared templates: harness/common/shared_*.go.tmpl, for the packages named
+	// in their "//vp:packages" line
+	if shared, _ := filepath.Glob(filepath.Join(common, "shared_*.go.tmpl")); len(shared) > 0 {
+		for _, sf := range shared {
+			b, err := os.ReadFile(sf)
+			if err != nil {
+				return nil, nil, nil, err
+			}
+			use := false
+			for _, l := range strings.Split(string(b), "\n") {
+				if strings.HasPrefix(l, "//vp:packages") {
+					for _, pk := range strings.Fields(l)[1:] {
+						if pk == pkgDir {
+							use = true
+						}
+					}
+				}
+			}
+			if !use {
+				continue
+			}
+			for _, m := range harnessFuncRe.FindAllSubmatch(b, -1) {
+				names = append(names, string(m[1]))
+			}
+			base := strings.TrimSuffix(filepath.Base(sf), ".tmpl")
+			if err := emit("zz_vp_"+base, subst(b), false); err != nil {
+				return nil, nil, nil, err
+			}
+		}
+	}
 	hdir := filepath.Join(verifDir, "harness", pkgDir)
 	ents, _ := os.ReadDir(hdir)
 	for _, en := range ents {
